@@ -398,17 +398,37 @@ pub proof fn lemma_jstep(w: World, op: JOp)
         JOp::Tick { seq, ts } => { lemma_inv_fv_frame(w, w2); }
     }
 }
-pub proof fn lemma_j_history(w0: World, steps: Seq<JOp>)
-    requires j_genesis(w0), w0.ledger_ok(), j_valid(w0, steps),
-    ensures
-        //@@ C13:history.fv_units_equal_balance_and_votes_inv
-        inv_fv(j_run(w0, steps)),
-        //@@ C13:history.fv_past_lookup_is_value_at_end_of_ledger
-        forall|t: CheckpointType, q: u32| #[trigger] past_value(j_run(w0, steps), t, q) == j_hist_val(w0, steps, t, q),
-    decreases steps.len()
+pub proof fn lemma_j_hist_point(w0: World, steps: Seq<JOp>, t: CheckpointType, q: u32)
+    requires j_genesis(w0), w0.ledger_ok(), j_valid(w0, steps), steps.len() > 0,
+        inv_fv(j_run(w0, steps.drop_last())),
+        past_value(j_run(w0, steps.drop_last()), t, q) == j_hist_val(w0, steps.drop_last(), t, q),
+    ensures past_value(j_run(w0, steps), t, q) == j_hist_val(w0, steps, t, q),
 {
     let w = j_run(w0, steps);
-    if steps.len() == 0 {
+    let pre = steps.drop_last();
+    let wp = j_run(w0, pre);
+    lemma_jstep(wp, steps.last());
+    if w.ledger_seq <= q {
+        assert(seq_ok(w, t));
+        lemma_past_is_latest(w, t, q);
+    } else {
+        assert(j_hist_val(w0, steps, t, q) == j_hist_val(w0, pre, t, q));
+        if q < wp.ledger_seq {
+            assert(past_value(w, t, q) == past_value(wp, t, q));
+        } else {
+            assert(steps.last() is Tick);
+            lemma_inv_fv_frame(wp, w);
+        }
+    }
+}
+
+pub proof fn lemma_j_genesis(w0: World)
+    requires j_genesis(w0), w0.ledger_ok(),
+    ensures inv_fv(j_run(w0, Seq::empty())),
+        forall|t: CheckpointType, q: u32| #[trigger] past_value(j_run(w0, Seq::empty()), t, q) == j_hist_val(w0, Seq::empty(), t, q),
+{
+    let steps = Seq::<JOp>::empty();
+    let w = j_run(w0, steps);
         lemma_genesis(w0);
         lemma_v_genesis(w0);
         assert(w == run(w0, Seq::empty()));
@@ -421,25 +441,28 @@ pub proof fn lemma_j_history(w0: World, steps: Seq<JOp>)
             assert(past_value(w, t, q) == 0);
             assert(cp_latest(w, t) == 0);
         }
+}
+
+pub proof fn lemma_j_history(w0: World, steps: Seq<JOp>)
+    requires j_genesis(w0), w0.ledger_ok(), j_valid(w0, steps),
+    ensures
+        //@@ C13:history.fv_units_equal_balance_and_votes_inv
+        inv_fv(j_run(w0, steps)),
+        //@@ C13:history.fv_past_lookup_is_value_at_end_of_ledger
+        forall|t: CheckpointType, q: u32| #[trigger] past_value(j_run(w0, steps), t, q) == j_hist_val(w0, steps, t, q),
+    decreases steps.len()
+{
+    let w = j_run(w0, steps);
+    if steps.len() == 0 {
+        lemma_j_genesis(w0);
+        assert(steps =~= Seq::empty());
     } else {
         let pre = steps.drop_last();
         let wp = j_run(w0, pre);
         lemma_j_history(w0, pre);
         lemma_jstep(wp, steps.last());
         assert forall|t: CheckpointType, q: u32| #[trigger] past_value(w, t, q) == j_hist_val(w0, steps, t, q) by {
-            if w.ledger_seq <= q {
-                assert(seq_ok(w, t));
-                lemma_past_is_latest(w, t, q);
-            } else {
-                assert(j_hist_val(w0, steps, t, q) == j_hist_val(w0, pre, t, q));
-                assert(past_value(wp, t, q) == j_hist_val(w0, pre, t, q));
-                if q < wp.ledger_seq {
-                    assert(past_value(w, t, q) == past_value(wp, t, q));
-                } else {
-                    assert(steps.last() is Tick);
-                    lemma_inv_fv_frame(wp, w);
-                }
-            }
+            lemma_j_hist_point(w0, steps, t, q);
         }
     }
 }
